@@ -4,7 +4,7 @@ Only files whose text changes are touched (so make rebuilds only what changed).
 Prints one line per untranslatable root; exit status 0 either way."""
 import os, sys
 sys.path.insert(0, os.path.dirname(os.path.abspath(__file__)))
-import py2coq, roots, tables, xfer, keys
+import py2coq, roots, tables, xfer, keys, audit
 
 
 def regen(root='/repo', out=None):
@@ -19,6 +19,9 @@ def regen(root='/repo', out=None):
     ktext, kfailed = keys.gen_keys(root)
     files['K_keys'] = ktext
     failed.update(kfailed)
+    atext, afailed = audit.gen_audit(root)
+    files['A_audit'] = atext
+    failed.update(afailed)
     os.makedirs(out, exist_ok=True)
     changed = []
     for stem, text in files.items():
